@@ -2,7 +2,7 @@
    Definitions only.  [Range<V>] is modelled by the slice of its segments (SmallVec abstracted to
    as_slice, see Model/SmallVec.v for the representation-independence of Eq/Hash). *)
 From Coq Require Import Orders OrdersEx.
-From PG Require Export Model.Text.
+From PG Require Export Model.Text Model.VS.
 
 Inductive bound (T : Type) := Incl (v : T) | Excl (v : T) | Unb.
 Arguments Incl {T} v.
@@ -437,5 +437,11 @@ Module RangeM (V : UsualOrderedTypeFull).
       | _ => join (txt " | ") (map (fun conj => join (txt ", ") (map render_token conj)) tl)
       end.
   End Display.
+
+  (* impl VersionSet for Range (l.841-879): every provided method is overridden *)
+  Definition range_vs : VSOps range ver := {|
+    vs_eqb := range_eqb; vs_empty := empty; vs_singleton := singleton; vs_complement := complement;
+    vs_intersection := intersection; vs_contains := contains; vs_full := full; vs_union := union;
+    vs_is_disjoint := is_disjoint; vs_subset_of := subset_of |}.
 
 End RangeM.
